@@ -121,7 +121,7 @@ pub unsafe fn lg_share(b: NonNull<[u8]>, d: BufferDirection, ap: bool) -> PhysAd
 }
 pub unsafe fn lg_unshare(p: PhysAddr, b: NonNull<[u8]>, d: BufferDirection, ap: bool) {
     let f = lg_find_live(p);
-    assert!(f.is_some(), "C04: unshare of a device address that is not a live share (double or foreign unshare)");
+    assert!(f.is_some(), "C04/C07: unshare of a device address that is not a live share (double or foreign unshare)");
     let i = f.unwrap();
     assert!(LG[i].ptr == b.as_ptr() as *mut u8 as usize, "C04: unshare buffer pointer differs from the one shared");
     assert!(LG[i].len == b.len(), "C04: unshare buffer length differs from the one shared");
@@ -215,7 +215,8 @@ pub static mut DMA_CNT: usize = 0;
 /// 0 = allocations never fail; k = the k-th dma_alloc call returns (0, dangling)
 pub static mut DMA_FAIL_AT: usize = 0;
 pub static mut DMA_CALLS: usize = 0;
-/// the first DMA_RING_ALLOCS successful allocations are queue rings (typed); later single-page ones are raw buffers
+/// the first DMA_RING_ALLOCS dma_alloc *calls* are queue rings (typed); later single-page ones are raw buffers
+/// (compared with the call counter, which is concrete, not with the symbolic success counter)
 pub static mut DMA_RING_ALLOCS: usize = usize::MAX;
 /// device addresses currently attached to a device resource as backing (a release of one of them is a C20 violation)
 pub static mut DMA_PROTECTED: [u64; 2] = [0; 2];
@@ -261,11 +262,11 @@ unsafe impl<const N: usize> Hal for THal<N> {
             assert!(i < MAXDMA, "harness: DMA log full");
             assert!(pages >= 1, "C06: zero-page DMA allocation");
             let p: *mut u8 = match d {
-                BufferDirection::DriverToDevice if pages == 1 && i < DMA_RING_ALLOCS => alloc::boxed::Box::into_raw(alloc::boxed::Box::new(D2DMem::<N> {
+                BufferDirection::DriverToDevice if pages == 1 && DMA_CALLS <= DMA_RING_ALLOCS => alloc::boxed::Box::into_raw(alloc::boxed::Box::new(D2DMem::<N> {
                     desc: FromZeros::new_zeroed(),
                     avail: AvailRing { flags: AtomicU16::new(0), idx: AtomicU16::new(0), ring: [0; N], used_event: AtomicU16::new(0) },
                 })) as *mut u8,
-                BufferDirection::DeviceToDriver if pages == 1 && i < DMA_RING_ALLOCS => alloc::boxed::Box::into_raw(alloc::boxed::Box::new(D2HMem::<N> {
+                BufferDirection::DeviceToDriver if pages == 1 && DMA_CALLS <= DMA_RING_ALLOCS => alloc::boxed::Box::into_raw(alloc::boxed::Box::new(D2HMem::<N> {
                     used: UsedRing { flags: AtomicU16::new(0), idx: AtomicU16::new(0), ring: core::array::from_fn(|_| UsedElem { id: 0, len: 0 }), avail_event: AtomicU16::new(0) },
                 })) as *mut u8,
                 _ => {
